@@ -1047,6 +1047,9 @@ def worldLine (st : WorldSt) (line : String) : WorldSt × List String × String 
            -- outside the model: a pair migrated to an existing code that is not the pair code (it then runs foreign code)
            let foreignMigrate := match op with
              | .factory _ _ (.migratePair _ c) => implOk && c.getD st0.w.pairCode ≠ st0.w.envPairCode
+             -- the test bank accepts a transfer to an address string a chain would reject (and then cannot report its
+             -- balance): an artefact of the test environment, not a state of the system
+             | .bankSend _ d _ => implOk && st0.w.badAddr d
              | _ => false
            let (modelStr, w') : String × World := match r with
              | .ok (w', out) =>
